@@ -30,3 +30,5 @@ def run(F, rep):
     # "the sole extension on both facing sides" is about the extensions observed in the reads: both summarizers must hand every
     # observation's extensions to the table (a dropped one hides a branch inside a node)
     rep.run(dt_filter.summarizer_tables, F, rep, "C02.5")
+    # both routes read the terminal k-mers of nodes / the k-mers of the store through Vmer::get_kmer on views of the packed store
+    rep.run(common.run_store_kmer_lemmas, F, rep, "C02.6")
